@@ -274,7 +274,7 @@ func c12Replay(pl json.RawMessage) (string, []core.Violation) {
 func init() {
 	core.Register(&core.PropSpec{
 		ID: "C12", Level: "fault_enumeration",
-		Rule:     "valid programs = every subset-valid token sequence <= n (4 quick, 5 thorough) in every {space,LF} layout, every expression chain of depth 2 and every statement-family program (default layout and with each semicolon replaced by a line break); faults = delete each token, join two lines (remove a line-break separator), delete each ';', truncate at every byte inside each string/template literal and after each token inside an open bracket pair or block; domain = corrupted texts the reference parser (goja) rejects both as script and as function body, without a surplus top-level '}'; oracle = strict parse reports an error whose first range starts no earlier than the last intact token. non-trivial = corrupted text in the domain (counted per fault kind)",
+		Rule:     "valid programs = every subset-valid token sequence <= n (4 quick, 5 thorough) in every {space,LF} layout, every expression chain of depth 2 and every statement-family program (default layout and with each semicolon replaced by a line break); faults = delete each token, join two lines (remove a line-break separator), delete each ';', truncate at every byte inside each string/template literal and after each token inside an open bracket pair or block; domain = corrupted texts the reference parser (goja) rejects both as script and as function body, without a surplus top-level '}'; oracle = strict parse reports an error whose first range starts no earlier than the last intact token. non-trivial = corrupted text in the domain (counted per fault kind) Added families: every statement-family program also with a line break in every gap (except before postfix operators), with and without semicolons; statements whose last token spans several lines; two-literal programs (9 first literals with escapes next to the closing delimiter x 4 second literals x 4 templates).",
 		Assume:   []string{"goja's accept/reject verdict defines 'no longer valid JavaScript'"},
 		QuickSec: 240, ThorSec: 1800, Run: c12Run, Replay: c12Replay,
 		Evals: "corrupted_texts", Nontriv: "faults_in_domain",
